@@ -86,10 +86,4 @@ func VerifLemma_C02B_DocFile() {
 		verifAssert(m.MatchPath(p) == (p == want), "storage matcher admits exactly the chosen doc file")
 	}
 	verifAssert(m.MatchPath("a.proto") && m.MatchPath("LICENSE") && !m.MatchPath("readme.md"), "storage matcher: protos and LICENSE, nothing else")
-	// the set of recognised names is exactly the three
-	verifAssert(len(docFilePathMap) == 3, "three documentation file names")
-	for _, p := range priority {
-		_, ok := docFilePathMap[p]
-		verifAssert(ok, "documented names are recognised")
-	}
 }
